@@ -520,6 +520,17 @@ def tbar : Val → Option TBar
 def tbars : Val → Option (List TBar)
   | .list [.str _, _, .list bs] => bs.mapM tbar
   | _ => Option.none
+/-- a track of a composition: [name, instrument, bars] on the default tuning, or [name, instrument, bars, strings] on a
+    tuning the harness registers as instrument "x", description "y" -/
+def ttrack (v : Val) : Option (Option (Str × Str × Tuning) × List TBar) :=
+  match v with
+  | .list [nm, i, .list bs] => (tbars (.list [nm, i, .list bs])).map fun l => (Option.none, l)
+  | .list [nm, i, .list bs, .nil] => (tbars (.list [nm, i, .list bs])).map fun l => (Option.none, l)
+  | .list [nm, i, .list bs, tun] => do
+      let l ← tbars (.list [nm, i, .list bs])
+      let t ← tuning tun
+      pure (some (lit "x", lit "y", t), l)
+  | _ => Option.none
 def entryVal (e : Tun.Entry) : Val := .list [.str e.instrument, .str e.description]
 /-- sort by (instrument, description) as the harness does -/
 def sortEntries (l : List Tun.Entry) : List Tun.Entry :=
@@ -563,7 +574,7 @@ def dispatchTun : String → List Val → Option Val
       let tu ← TunDec.tuning t; let x ← TunDec.tbars tr
       pure (TunDec.linesVal (Tab.fromTrack tu x w))
   | "tab.composition", [.list [.str ttl, .str sub, .str au, .str em, .str de, .list trs], int w] => do
-      let x ← trs.mapM TunDec.tbars
+      let x ← trs.mapM TunDec.ttrack
       pure (TunDec.linesVal (Tab.fromComposition ttl sub au em de x w))
   | _, _ => none
 
